@@ -473,6 +473,82 @@ func main() {
 		}
 	})
 
+	// multi-polygons mixing polygons that cross the box with polygons wholly inside it (with holes)
+	r.Explore("multipolygon-inside-members", "multi-polygons of 1..2 polygons crossing the general-position box and a polygon wholly inside it with 0..2 holes, every order of the members, both orientations: region, and the inside polygon keeps exactly its own holes", mc.Opts{MaxDev: -1}, func(c *mc.Ctx) {
+		o := orb.CCW
+		if c.Bool() {
+			o = orb.CW
+		}
+		wind := func(r orb.Ring, ccw bool) orb.Ring { // r is given counter-clockwise
+			r = r.Clone()
+			if !ccw {
+				r.Reverse()
+			}
+			return r
+		}
+		crossA := orb.Ring{{2.6, 2.3}, {4, 2.3}, {4, 4}, {2.6, 4}, {2.6, 2.3}}
+		crossB := orb.Ring{{0, 1.3}, {1.45, 1.3}, {1.45, 1.4}, {0, 1.4}, {0, 1.3}}
+		inner := orb.Ring{{1.5, 1.25}, {2.5, 1.25}, {2.5, 2.25}, {1.5, 2.25}, {1.5, 1.25}}
+		h1 := orb.Ring{{1.55, 1.5}, {1.75, 1.5}, {1.75, 1.75}, {1.55, 1.75}, {1.55, 1.5}}
+		h2 := orb.Ring{{2.1, 1.5}, {2.3, 1.5}, {2.3, 1.75}, {2.1, 1.75}, {2.1, 1.5}}
+		in := orb.Polygon{wind(inner, o == orb.CCW)}
+		var holesIn []orb.Ring
+		for _, h := range []orb.Ring{h1, h2} {
+			if c.Bool() {
+				in = append(in, wind(h, o != orb.CCW))
+				holesIn = append(holesIn, h)
+			}
+		}
+		members := []orb.Polygon{{wind(crossA, o == orb.CCW)}, in}
+		two := c.Bool()
+		if two {
+			members = append(members, orb.Polygon{wind(crossB, o == orb.CCW)})
+		}
+		// every order of the members
+		idx := []int{0, 1, 2}[:len(members)]
+		var mp orb.MultiPolygon
+		for len(idx) > 0 {
+			k := c.Choose(len(idx))
+			mp = append(mp, members[idx[k]])
+			idx = append(idx[:k], idx[k+1:]...)
+		}
+		got := smartclip.MultiPolygon(gbox, mp.Clone(), o)
+		desc := fmt.Sprintf("box=%v orientation=%d multipolygon=%v result=%v", gbox, o, mp, got)
+		inOrig := func(q qpt) bool {
+			if inFloat(crossA, q.f) || (two && inFloat(crossB, q.f)) {
+				return true
+			}
+			if !inFloat(inner, q.f) {
+				return false
+			}
+			for _, h := range holesIn {
+				if inFloat(h, q.f) {
+					return false
+				}
+			}
+			return true
+		}
+		validate(c, func(s string) string { return "multi:" + s }, gbox, got, o, inOrig, desc)
+		// the inside polygon must come back with exactly its own holes
+		found := false
+		for _, gp := range got {
+			if len(gp) > 0 && len(gp[0]) == len(inner) && math.Abs(math.Abs(shoelace(gp[0]))-math.Abs(shoelace(inner))) < 1e-12 && inFloat(gp[0], orb.Point{2, 2}) {
+				found = true
+				if len(gp)-1 != len(holesIn) {
+					c.Failf("multi:hole-attachment", "the polygon wholly inside the box has %d holes in the result, want %d | %s", len(gp)-1, len(holesIn), desc)
+				}
+			} else if len(gp) > 1 {
+				c.Failf("multi:hole-attachment", "a polygon cut at the box edge carries %d holes that are not its own | %s", len(gp)-1, desc)
+			}
+		}
+		if !found {
+			c.Failf("multi:inside-member-lost", "the polygon wholly inside the box is missing from the result | %s", desc)
+		}
+		if len(holesIn) > 0 {
+			c.NonTrivial()
+		}
+	})
+
 	// open input: contiguous sub-paths cut at the box
 	r.Explore("open-subpaths", "every simple ring of 3..4 grid vertices x every contiguous sub-path that starts and ends outside the closed general-position box and contains all of the ring's contact with it, fed as an open ring with its winding: the result encloses region x box", mc.Opts{MaxDev: -1, Split: 2}, func(c *mc.Ctx) {
 		n := 3 + c.Choose(2)
